@@ -522,7 +522,10 @@ func runC17(w *World, r *Report, tier string) {
 			got := w.nf(bound, 0)
 			want := fmt.Sprintf("phi(builtin.len(%s)|param:%s)", U(fn), n.Name())
 			okClamp := got == want
-			if okClamp {
+			// (a clamp the normal form has already recognised as min(n, len): its guard was checked there)
+			if got == fmt.Sprintf("math.Min(builtin.len(%s),param:%s)", U(fn), n.Name()) || got == fmt.Sprintf("math.Min(param:%s,builtin.len(%s))", n.Name(), U(fn)) {
+				okClamp = true
+			} else if okClamp {
 				if phi, ok := bound.(*ssa.Phi); ok {
 					for i, e := range phi.Edges {
 						if e == ssa.Value(n) {
